@@ -288,7 +288,7 @@ Lemma while_enact loops m cond body r c br b1 r' c' :
   (m = WCode /\ br = BrExchange cond /\ b1 = BWhile (S loops) WCond cond body /\ S loops < r_max_loop r).
 Proof.
   intros H D Cs Mx Nok. cbn [enact] in H. unfold sw_while in D. destruct m.
-  - destruct (pop_value c) as [[v cx]|]; [|inversion H; subst; congruence].
+  - destruct (pop_value c) as [[v cx]|]; [|destruct (exit_value_missing r); inversion H; subst; congruence].
     destruct v; try (inversion H; subst; congruence).
     destruct b; [|inversion H; subst; congruence].
     destruct body as [|i0 body].
